@@ -5,7 +5,7 @@ import ast
 
 from .. import AnalysisError
 from ..model import CHILD, CHILD_MAP, CHILD_TUPLE
-from ..rules import (check_attr_existence, check_combine_handler,
+from ..rules import (effective_member, check_attr_existence, check_combine_handler,
                      check_forwarding, check_walk_handler, child_kinds, hname,
                      is_raising, mapper_node_pairs, node_fields, where,
                      handler_summaries, _covered_fields, _short)
@@ -160,7 +160,7 @@ def _check_flag_table(ctx, model, dm):
            "map_variable returns {expr}" if ok else
            "DependencyMapper.map_variable does not return exactly {expr}")
     # the mixin must win for map_common_subexpression
-    mem = model.lookup(dm, "map_common_subexpression")
+    mem = effective_member(model, dm, "map_common_subexpression")
     ok = mem is not None and mem.owner.name == "CSECachingMapperMixin"
     ctx.ob("S/DependencyMapper/cse-mixin-first", ok, dm.loc(),
            "map_common_subexpression resolves to the caching mix-in" if ok else
@@ -366,10 +366,19 @@ def _check_node_count(ctx, model):
            "is a CachedWalkMapper" if ok else
            "NodeCountMapper is no longer a cached walk: shared nodes are counted "
            "once per occurrence")
+    # members that could change what is visited or memoized (a __call__ that
+    # merely wraps the inherited entry point does not)
+    from ..rules import call_wrapper_result
     own = sorted(m for m in ncm.members if not m.startswith("__doc"))
-    extra = [m for m in own if m not in ("__init__", "post_visit")]
+    extra = [m for m in own if m.startswith("map_") or m in (
+        "visit", "rec", "rec_fallback", "get_cache_key", "map_foreign")]
+    wrapper_returns = None
+    if "__call__" in ncm.members:
+        wrapper_returns = call_wrapper_result(ncm.members["__call__"])
+        if wrapper_returns is None:
+            extra.append("__call__")
     ctx.ob("S/NodeCountMapper/members", not extra, ncm.loc(),
-           "defines only __init__ and post_visit" if not extra else
+           "does not override the traversal" if not extra else
            f"NodeCountMapper overrides {extra}")
     pv = ncm.members.get("post_visit")
     ok = False
@@ -417,6 +426,11 @@ def _check_node_count(ctx, model):
                       and e.args == (("param", fn.args.args[0].arg),)
                       for e in ps.events)
         ok = ps.retval == ("attr", fresh, "count") and applied
+        # ... or the mapper's own entry point returns its count
+        if not ok and wrapper_returns == {("self", "count")}:
+            rv = ps.retval
+            ok = isinstance(rv, tuple) and rv[0] == "call" and len(rv) >= 5 \
+                and rv[4] == fresh and rv[2] == (("param", fn.args.args[0].arg),)
     ctx.ob("P/get_num_nodes", ok, m.loc(fn), "fresh mapper, returns its count"
            if ok else "get_num_nodes does not return a fresh mapper's count after "
            "applying it to the expression")
@@ -532,7 +546,7 @@ def _check_flops(ctx, model):
            "handlers")
     # CSE-aware
     cse = model.cls(f"{FC}:CSEAwareFlopCounter")
-    mem = model.lookup(cse, "map_common_subexpression")
+    mem = effective_member(model, cse, "map_common_subexpression")
     ok_all = mem is not None and mem.kind == "func" and mem.owner is cse
     if ok_all:
         n = nt.get("CommonSubexpression")
